@@ -679,6 +679,7 @@ KERNELS = [
 CONSTS = [
     ("vc2_conformance.test_cases.decoder.lossless_quantization", "MINIMUM_DISTINCT_QINDEX"),
     ("vc2_conformance.bitstream.vc2", "PARSE_INFO_HEADER_BYTES"),
+    ("vc2_conformance.version_constraints", "MINIMUM_MAJOR_VERSION"),
 ]
 
 
